@@ -54,6 +54,8 @@ def config(sc, external):
     if sc.get("con"):
         cfg["nonlinear_constraints"] = {"lower_bounds": [-INF], "upper_bounds": [1.0]}
         cfg["linear_constraints"] = {"coefficients": [[1.0, 0.0, 1.0]], "lower_bounds": [-INF], "upper_bounds": [1.5]}
+    if sc.get("emptylin"):         # a linear-constraints section without rows (legal: nothing is constrained)
+        cfg["linear_constraints"] = {"coefficients": np.zeros((0, 3)), "lower_bounds": [], "upper_bounds": []}
     if sc.get("rel"):
         cfg["gradient"].update({"perturbation_types": 2, "perturbation_magnitudes": 0.01})
     if method == "cobyla":
@@ -117,6 +119,9 @@ def run(sc, external, env_extra=None):
                 os.kill(pid, signal.SIGKILL)
             time.sleep(0.2)
         h.update(variables.tobytes()); h.update(context.realizations.tobytes())
+        base_rows = variables if context.perturbations is None else variables[context.perturbations < 0]
+        if base_rows.shape[0]:
+            state["last"] = base_rows[-1].copy()
         if context.perturbations is not None:
             h.update(context.perturbations.tobytes())
         x = variables
@@ -143,7 +148,23 @@ def run(sc, external, env_extra=None):
     signal.alarm(int(DEADLINE))
     try:
         kw = {"variables": sc["start"]} if sc.get("start") else {}
-        code, outcome = outcome_of(lambda: plan.run_step(step, config=config(sc, external), **kw))
+        if sc.get("restart"):
+            # ONE optimizer object started twice: the second run starts at the point the first one evaluated last
+            from ropt.config.enopt import EnOptConfig
+            from ropt.ensemble_evaluator import EnsembleEvaluator
+            from ropt.optimization import EnsembleOptimizer
+            from ropt.plugins import PluginManager
+            pm = PluginManager()
+            cfgobj = EnOptConfig.model_validate(config(sc, external))
+            optimizer = EnsembleOptimizer(cfgobj, EnsembleEvaluator(cfgobj, None, evaluator, pm), pm)
+
+            def twice():
+                first = optimizer.start(np.array(cfgobj.variables.initial_values))
+                h.update(b"|second start|" + str(first).encode())
+                return optimizer.start(np.array(state["last"], dtype=np.float64))
+            code, outcome = outcome_of(twice)
+        else:
+            code, outcome = outcome_of(lambda: plan.run_step(step, config=config(sc, external), **kw))
     except Deadline:
         code, outcome = None, "exc:Deadline"
     finally:
@@ -217,6 +238,8 @@ def extra_scenarios(tier, seed):
                  {"method": "nelder-mead", "maxfun": 3, "slow": 1.3}, {"method": "nelder-mead", "maxfun": 2, "nvars": 3000},
                  {"method": "slsqp", "maxfun": 4, "redir": True}]
         pairs += [{"method": "nelder-mead", "maxfun": 2, "padto": 65536 + k} for k in (3, 8)]
+        pairs += [{"method": "slsqp", "maxfun": 4, "restart": True}, {"method": "slsqp", "maxfun": 6, "nanAt": 2, "restart": True},
+                  {"method": "slsqp", "maxfun": 3, "emptylin": True}]
         kills = (-1, 1, 3, 4)
     else:
         kills, methods = (-1, 1, 2, 3, 4, 5, 6), ("slsqp", "cobyla", "differential_evolution")
@@ -232,6 +255,9 @@ def extra_scenarios(tier, seed):
                  {"method": "nelder-mead", "maxfun": 2, "nvars": 3000}, {"method": "nelder-mead", "maxfun": 2, "nvars": 20000},
                  {"method": "slsqp", "maxfun": 4, "redir": True}, {"method": "cobyla", "maxfun": 4, "redir": True, "mask": True}]
         pairs += [{"method": "nelder-mead", "maxfun": 2, "padto": 65536 * m + k} for m in (1, 2) for k in range(0, 13)]
+        pairs += [{"method": "slsqp", "maxfun": 4, "restart": True}, {"method": "slsqp", "maxfun": 6, "nanAt": 2, "restart": True},
+                  {"method": "nelder-mead", "maxfun": 3, "restart": True}, {"method": "cobyla", "maxfun": 5, "con": True, "restart": True},
+                  {"method": "slsqp", "maxfun": 3, "emptylin": True}, {"method": "cobyla", "maxfun": 3, "emptylin": True}]
     for m in methods:
         for k in kills:
             out.append({"kind": "fault", "fault": "kill", "after": k, "method": m, "maxfun": 12})
